@@ -327,11 +327,34 @@ func judge(run *hx.Run, l *linter, w *wsT, b *built, c lintCfg, what string, exp
 		dirty = strings.Join(sortedKeys(dirtySet), ",")
 	}
 	line := "lint\t" + optsField(c.opts) + "\t" + strings.Join(modelled, ",") + "\t" + w.serialise()
-	run.Case(line, "clean="+clean+" dirty="+dirty+" "+strings.Join(sortedKeys(gotModelled), ";"), len(gotModelled) > 0)
+	run.Case(line, "clean="+clean+" dirty="+dirty+" names="+b2s(w.methodNamesDistinct())+" "+strings.Join(sortedKeys(gotModelled), ";"), len(gotModelled) > 0)
 	run.Count(fmt.Sprintf("B:lint:%v:%s", c.version, strings.Join(c.use, "+")))
 	for _, a := range anns {
 		run.Count("B:annotation:" + a.rule)
 	}
+}
+
+// methodNamesDistinct: no two RPCs of the target files have the same fully-qualified name
+// <package>.<Service>.<Rpc> (the linker guarantees it; it is the hypothesis under which the Lean
+// theorems identify the rule as coded — maps keyed by that name — with the documented one)
+func (w *wsT) methodNamesDistinct() bool {
+	seen := map[string]bool{}
+	for _, fi := range targets(w) {
+		f := w.files[fi]
+		for _, s := range f.svcs {
+			for _, m := range s.rpcs {
+				n := s.name + "." + m.name
+				if f.pkg != "" {
+					n = f.pkg + "." + n
+				}
+				if seen[n] {
+					return false
+				}
+				seen[n] = true
+			}
+		}
+	}
+	return true
 }
 
 var versions = []bufconfig.FileVersion{bufconfig.FileVersionV1Beta1, bufconfig.FileVersionV1, bufconfig.FileVersionV2}
@@ -394,7 +417,34 @@ func sectionB(run *hx.Run, r *hx.Rand) {
 				judge(run, l, w, b, lintCfg{v, use, o, nil}, fmt.Sprintf("clean workspace %d", wi), nil, replay)
 			}
 		}
-		plantAll(run, l, rr, w, o, wi, replay)
+		plantAll(run, l, rr, w, o, wi, replay, nil)
+	}
+	// the name-collision family (collide.go): workspaces numbered from 100
+	for ci, nc := 0, run.N(2, 4); ci < nc; ci++ {
+		wi := 100 + ci
+		rr := r.Fork(uint64(wi))
+		o := optionSets[(ci*3+int(run.Seed%10))%len(optionSets)]
+		w, info := genCollisionWorkspace(rr, o)
+		replay := fmt.Sprintf("c05 --seed %d --tier %s (name-collision workspace %d)", run.Seed, run.Tier, wi)
+		b, err := build(w)
+		if err != nil {
+			run.Fail(hx.OracleFailure{Class: "c05-harness-generated-invalid-workspace", What: "name-collision workspace: " + err.Error(), Input: textsOf(w), Replay: replay})
+			continue
+		}
+		if err := b.selfCheck(); err != nil {
+			run.Fail(hx.OracleFailure{Class: "c05-harness-renderer-position-table", What: err.Error(), Input: b.texts, Replay: replay})
+			continue
+		}
+		if ci == 0 {
+			run.Sample(map[string]any{"name-collision workspace": wi, "files": b.texts})
+		}
+		run.Count(fmt.Sprintf("C:workspace:files=%d", len(w.files)))
+		for _, v := range versions {
+			for _, use := range [][]string{{"MINIMAL"}, {"BASIC"}, {"STANDARD"}, {"COMMENTS"}, {"UNARY_RPC"}, allUse(v)} {
+				judge(run, l, w, b, lintCfg{v, use, o, nil}, fmt.Sprintf("clean name-collision workspace %d", wi), nil, replay)
+			}
+		}
+		plantAll(run, l, rr, w, o, wi, replay, info)
 	}
 }
 
